@@ -333,3 +333,202 @@ Proof.
   rewrite E8. cbn [Nat.add]. rewrite rev_length, E10, E9, E11.
   f_equal. unfold p. f_equal; lia.
 Qed.
+
+(* ================================================================== *)
+(* Round trip with a configured prefix                                  *)
+(* ================================================================== *)
+Lemma start_loop_skip : forall rp rl k, start_loop rp k rl = start_loop rp 0 (skipn k rl).
+Proof.
+  induction rl as [|c r IH]; intros k.
+  - destruct k; reflexivity.
+  - destruct k as [|k]; [reflexivity|]. cbn [start_loop skipn]. apply IH.
+Qed.
+
+(* find_open finds the nearest opener; if there is one in X it stays inside X *)
+Lemma find_open_in : forall op (X B : str), In op X ->
+  exists m X1 X2, find_open op (X ++ B) = Some (S m) /\ X = X1 ++ op :: X2 /\ length X1 = m.
+Proof.
+  induction X as [|x X IH]; intros B HI; [destruct HI|].
+  cbn [app find_open]. destruct (x =? op) eqn:E.
+  - apply N.eqb_eq in E. subst x. exists O, [], X. repeat split.
+  - destruct HI as [HI|HI]; [subst x; rewrite N.eqb_refl in E; discriminate|].
+    destruct (IH B HI) as [m [X1 [X2 [F [EX L]]]]]. rewrite F.
+    exists (S m), (x :: X1), X2. repeat split; [rewrite EX; reflexivity|cbn [length]; f_equal; exact L].
+Qed.
+
+
+Section PrefixSearch.
+Variable pf L1 : str.
+Variable x : char.
+Variable pf0 : str.
+Hypothesis Hpf : pf = pf0 ++ [x].
+Hypothesis Hx1 : x <> c_rbrack.
+Hypothesis Hx2 : x <> c_rbrace.
+
+Let B := rev pf ++ rev L1.
+
+Lemma B_head : B = x :: rev pf0 ++ rev L1.
+Proof. unfold B. rewrite Hpf, rev_app_distr. reflexivity. Qed.
+
+Lemma start_at_prefix : start_loop (rev pf) 0 B = Some (length B).
+Proof.
+  rewrite B_head. cbn [start_loop consume_pair].
+  apply N.eqb_neq in Hx1, Hx2. rewrite Hx1, Hx2.
+  assert (E : consume_list (rev pf) (x :: rev pf0 ++ rev L1) = true).
+  { rewrite Hpf, rev_app_distr. cbn [rev app consume_list starts_with]. rewrite N.eqb_refl. cbn [andb].
+    clear. induction (rev pf0) as [|y l IH]; [reflexivity|]. cbn [app starts_with]. rewrite N.eqb_refl. exact IH. }
+  rewrite E. reflexivity.
+Qed.
+
+Lemma start_loop_abbr : forall n A',
+  (length A' <= n)%nat -> ~ In x A' ->
+  opener_left c_rbrack c_lbrack A' -> opener_left c_rbrace c_lbrace A' ->
+  start_loop (rev pf) 0 (rev A' ++ B) = Some (length B).
+Proof.
+  induction n as [|n IH]; intros A' Ln NX O1 O2.
+  - destruct A'; [apply start_at_prefix|cbn in Ln; lia].
+  - destruct A' as [|c0 A0'] using rev_ind; [apply start_at_prefix|]. clear IHA0'.
+    rename A0' into A0. rename c0 into c.
+    rewrite app_length in Ln. cbn [length] in Ln.
+    rewrite rev_app_distr. cbn [rev app].
+    (* prefixes of A0 inherit the hypotheses *)
+    assert (SUB : forall X1 X2, A0 = X1 ++ X2 ->
+              (length X1 <= n)%nat /\ ~ In x X1 /\
+              opener_left c_rbrack c_lbrack X1 /\ opener_left c_rbrace c_lbrace X1).
+    { intros X1 X2 E. subst A0. rewrite app_length in Ln. split; [lia|]. split.
+      - intros I. apply NX. apply in_or_app. left. apply in_or_app. left. exact I.
+      - split; intros P S E; [apply (O1 P (S ++ X2 ++ [c]))|apply (O2 P (S ++ X2 ++ [c]))];
+          rewrite E, <- !app_assoc; reflexivity. }
+    assert (JUMP : forall cl op, opener_left cl op (A0 ++ [c]) -> c = cl ->
+              exists m X1 X2, find_open op (rev A0 ++ B) = Some (S m) /\ A0 = X1 ++ op :: X2 /\
+                              skipn (S m) (rev A0 ++ B) = rev X1 ++ B).
+    { intros cl op OO EC. subst c.
+      assert (I : In op (rev A0)) by (apply in_rev; rewrite rev_involutive; apply (OO A0 []); reflexivity).
+      destruct (find_open_in op (rev A0) B I) as [m [Y1 [Y2 [F [EY LY]]]]].
+      exists m, (rev Y2), (rev Y1). split; [exact F|]. split.
+      - rewrite <- (rev_involutive A0), EY, rev_app_distr. cbn [rev]. rewrite <- app_assoc. reflexivity.
+      - rewrite EY, <- app_assoc. cbn [app]. rewrite rev_involutive.
+        replace (S m) with (length Y1 + 1)%nat by lia. rewrite <- skipn_skipn', skipn_exact. reflexivity. }
+    cbn [start_loop]. unfold consume_pair at 1.
+    destruct (c =? c_rbrack) eqn:E1.
+    { apply N.eqb_eq in E1. destruct (JUMP _ _ O1 E1) as [m [X1 [X2 [F [EA SK]]]]].
+      rewrite F, start_loop_skip. change (skipn (S m) (rev A0 ++ B)) with (skipn (S m) (rev A0 ++ B)) in SK.
+      destruct (SUB X1 (c_lbrack :: X2) EA) as [S1 [S2 [S3 S4]]].
+      assert (SK' : skipn m (skipn 1 (c :: rev A0 ++ B)) = skipn (S m) (c :: rev A0 ++ B)) by (rewrite skipn_skipn'; reflexivity).
+      (* after consuming c and S m more characters *)
+      replace (skipn (S m) (rev A0 ++ B)) with (rev X1 ++ B) by (symmetry; exact SK).
+      apply IH; assumption. }
+    unfold consume_pair.
+    destruct (c =? c_rbrace) eqn:E2.
+    { apply N.eqb_eq in E2. destruct (JUMP _ _ O2 E2) as [m [X1 [X2 [F [EA SK]]]]].
+      rewrite F, start_loop_skip.
+      destruct (SUB X1 (c_lbrace :: X2) EA) as [S1 [S2 [S3 S4]]].
+      replace (skipn (S m) (rev A0 ++ B)) with (rev X1 ++ B) by (symmetry; exact SK).
+      apply IH; assumption. }
+    assert (CL : consume_list (rev pf) (c :: rev A0 ++ B) = false).
+    { rewrite Hpf, rev_app_distr. cbn [rev app consume_list starts_with].
+      assert (x <> c) by (intros ->; apply NX; apply in_or_app; right; left; reflexivity).
+      apply N.eqb_neq in H. rewrite H. reflexivity. }
+    rewrite CL.
+    destruct (SUB A0 [] (eq_sym (app_nil_r A0))) as [S1 [S2 [S3 S4]]]. apply IH; assumption.
+Qed.
+End PrefixSearch.
+
+Lemma get_start_offset_ne : forall line p pf, pf <> [] ->
+  get_start_offset line p pf = start_loop (rev pf) 0 (rev (firstn p line)).
+Proof. intros line p [|y pf] N; [contradiction|reflexivity]. Qed.
+
+Lemma match_ne : forall {A B} (l : list A) (a b : B), l <> [] -> match l with [] => a | _ :: _ => b end = b.
+Proof. intros A B [|y l] a b N; [contradiction|reflexivity]. Qed.
+
+Theorem extract_roundtrip_prefix : forall (o : opts) (L1 pf0 : str) (x : char) (A1 C R : str),
+  let mk := is_markup o in
+  let A := A1 ++ C in
+  let pf := pf0 ++ [x] in
+  o_prefix o = pf ->
+  x <> c_rbrack -> x <> c_rbrace -> x <> c_bslash -> ~ In x A ->
+  opener_left c_rbrack c_lbrack A -> opener_left c_rbrace c_lbrace A ->
+  abbr mk A -> A <> [] -> (forall c r, A = c :: r -> ~ dangling c) ->
+  right_ctx mk (o_look o) C R ->
+  extract_abbreviation (L1 ++ pf ++ A ++ R) (Some (Z.of_nat (length L1 + length pf + length A1))) o =
+  Some (mkExtracted A (Z.of_nat (length L1 + length pf)) (Z.of_nat (length L1))
+                    (Z.of_nat (length L1 + length pf + length A))).
+Proof.
+  intros o L1 pf0 x A1 C R mk A pf HP X1 X2 X3 NX O1 O2 HA HN HD HR.
+  set (L := L1 ++ pf).
+  set (line := L1 ++ pf ++ A ++ R).
+  assert (EL : line = L ++ A ++ R) by (unfold line, L; rewrite <- app_assoc; reflexivity).
+  assert (LLen : length L = (length L1 + length pf)%nat) by (unfold L; apply app_length).
+  set (p0 := (length L1 + length pf + length A1)%nat). set (p := (length L + length A)%nat).
+  assert (LA : length A = (length A1 + length C)%nat) by (unfold A; apply app_length).
+  assert (LL : length line = (length L + length A + length R)%nat).
+  { rewrite EL, !app_length. lia. }
+  assert (E1 : clamp_pos line (Some (Z.of_nat p0)) = p0) by (apply clamp_pos_inside; unfold p0; lia).
+  assert (E2 : skipn p0 line = C ++ R).
+  { rewrite EL. unfold A, p0. rewrite <- LLen, <- app_assoc, app_assoc, <- app_length. apply skipn_exact. }
+  assert (E3 : (if o_look o then (p0 + past_auto_closed mk (C ++ R))%nat else p0) = p).
+  { unfold p, p0. destruct (o_look o) eqn:LK.
+    - rewrite (past_auto_closed_exact mk C R HR). lia.
+    - cbn in HR. subst C. cbn [length] in LA. lia. }
+  assert (F : firstn p line = L ++ A).
+  { rewrite EL. unfold p. rewrite app_assoc, <- app_length, firstn_app.
+    rewrite Nat.sub_diag, firstn_O, app_nil_r. apply firstn_all. }
+  assert (E4 : get_start_offset line p pf = Some (length L)).
+  { rewrite get_start_offset_ne by (unfold pf; destruct pf0; discriminate).
+    rewrite F. unfold L. rewrite !rev_app_distr.
+    rewrite (start_loop_abbr pf L1 x pf0 eq_refl X1 X2 (length A) A (le_n _) NX O1 O2).
+    rewrite !app_length, !rev_length. f_equal. apply Nat.add_comm. }
+  assert (E5 : rev (slice line (length L) p) = rev A ++ []).
+  { rewrite app_nil_r. f_equal. rewrite EL. unfold slice, p. rewrite skipn_exact.
+    replace (length L + length A - length L)%nat with (length A) by lia.
+    rewrite firstn_app, Nat.sub_diag, firstn_O, app_nil_r. apply firstn_all. }
+  assert (E6 : bslash_before line (length L) = false).
+  { rewrite LLen. unfold pf at 1. rewrite app_length. cbn [length].
+    replace (length L1 + (length pf0 + 1))%nat with (S (length (L1 ++ pf0))) by (rewrite app_length; lia).
+    cbn [bslash_before]. unfold line, pf. rewrite <- app_assoc, app_assoc.
+    rewrite nth_error_app2 by lia. rewrite Nat.sub_diag. cbn [app nth_error].
+    apply N.eqb_neq. exact X3. }
+  assert (E9 : slice line (length L) p = A).
+  { rewrite <- (rev_involutive (slice line (length L) p)), E5, app_nil_r. apply rev_involutive. }
+  assert (E10 : Nat.eqb (length L + 0) p = false).
+  { apply Nat.eqb_neq. unfold p. destruct A; [contradiction HN; reflexivity|cbn [length]; lia]. }
+  assert (E11 : lstrip_by is_trim A = A).
+  { apply lstrip_keep. intros c r E. apply not_dangling_trim. exact (HD c r E). }
+  unfold extract_abbreviation. fold mk. fold line. fold p0. rewrite E1, E2, E3, HP, E4, E5, E6.
+  rewrite (scan_abbr mk A HA [] []) by (try reflexivity; exact sf_nil).
+  cbn [scan length]. rewrite E10. rewrite Nat.add_0_r, E9, E11.
+  rewrite match_ne by (unfold pf; destruct pf0; discriminate).
+  f_equal. unfold p. f_equal; lia.
+Qed.
+
+(* ------------------------------------------------------------------ building grammar derivations *)
+Lemma abbr_app_chars : forall mk P s, abbr mk P -> forallb abbr_char s = true -> abbr mk (P ++ s).
+Proof.
+  intros mk P s. revert P. induction s as [|c s IH]; intros P HP H.
+  - rewrite app_nil_r. exact HP.
+  - cbn [forallb] in H. apply andb_true_iff in H. destruct H as [H1 H2].
+    replace (P ++ c :: s) with ((P ++ [c]) ++ s) by (rewrite <- app_assoc; reflexivity).
+    apply IH; [apply ab_char; assumption|exact H2].
+Qed.
+
+Lemma sq_chars : forall s, forallb (fun c => negb (is_bracket c)) s = true -> sq s.
+Proof.
+  induction s as [|c s IH] using rev_ind; intros H; [exact sq_nil|].
+  rewrite forallb_app in H. apply andb_true_iff in H. destruct H as [H1 H2].
+  cbn [forallb] in H2. rewrite andb_true_r in H2. apply negb_true_iff in H2.
+  apply sq_char; [apply IH; exact H1|exact H2].
+Qed.
+
+Lemma cu_chars : forall s, forallb (fun c => negb (c =? c_lbrace) && negb (c =? c_rbrace)) s = true -> cu s.
+Proof.
+  induction s as [|c s IH] using rev_ind; intros H; [exact cu_nil|].
+  rewrite forallb_app in H. apply andb_true_iff in H. destruct H as [H1 H2].
+  cbn [forallb] in H2. rewrite andb_true_r in H2. apply andb_true_iff in H2. destruct H2 as [H2 H3].
+  apply negb_true_iff, N.eqb_neq in H2, H3. apply cu_char; [apply IH; exact H1|exact H2|exact H3].
+Qed.
+
+Lemma items_plain : forall s, forallb plain s = true -> items s.
+Proof.
+  induction s as [|c s IH]; intros H; [exact it_nil|].
+  cbn [forallb] in H. apply andb_true_iff in H. destruct H as [H1 H2]. apply it_char; [exact H1|exact (IH H2)].
+Qed.
